@@ -25,6 +25,7 @@ extern "C" void harness() {
     id_dep[i] = -2; id_rsp[i] = -2;
     if ((DEPMASK >> i) & 1) { es[i]->vf_depfile = deps[i]; id_dep[i] = vf_register_path(es[i]->vf_depfile); }
     if ((RSPMASK >> i) & 1) { es[i]->vf_rspfile = rsps[i]; id_rsp[i] = vf_register_path(es[i]->vf_rspfile); }
+    if (nondet_bool()) es[i]->vf_deps = "gcc";                /* whether the statement uses deps = gcc is irrelevant to cleaning */
   }
   for (int i = 0; i < VF_PATHS; i++) {
     long r = nondet_long(); __CPROVER_assume(r >= -1 && r <= 1); disk.vf_remove_ret[i] = r;
@@ -69,6 +70,7 @@ extern "C" void harness() {
   if (in_stale) { entries.d_[entries.n_].first = StringPiece(stale.path_); entries.n_++; }
   if (in_lonely) { entries.d_[entries.n_].first = StringPiece(lonely.path_); entries.n_++; }
   if (in_src) { entries.d_[entries.n_].first = StringPiece(src.path_); entries.n_++; }
+  if (LOGMASK & 16) { entries.d_[entries.n_].first = StringPiece(all.path_); entries.n_++; }      /* a final output: produced by a statement, used by none */
   int rc = cl.CleanDead(entries);
   bool expect[VF_PATHS]; for (int i = 0; i < VF_PATHS; i++) expect[i] = false;
   if (in_stale) expect[id_stale] = true;          /* recorded in the log, no longer anywhere in the graph */
